@@ -25,6 +25,7 @@ def plan(tier, seed):
     for key, cls in sorted(discover_classes().items()):
         cases.append({"kind": "class", "key": key, "cost": 3.0 if dataclasses.is_dataclass(cls) else 1.0})
     cases.append({"kind": "helpers", "cost": 4.0})
+    cases.append({"kind": "callable_attrs", "cost": 4.0})
     reps = 3 if tier == "quick" else 60
     for key, cls in sorted(discover_classes().items()):
         if dataclasses.is_dataclass(cls) and not cls.__name__.startswith("_"):
@@ -187,6 +188,67 @@ def check_instance(rec, ctx, e, key, shape, rng):
             law("folded_code", "unfolded cse off", False, f"lambdify(doit(), cse=False) raised {type(exc).__name__}: {exc}")
 
 
+def _callable_attrs(rec, ctx, rng):
+    """Non-SymPy attributes that are plain callables (the phsp_factor protocol is 'any callable (s, m1, m2) -> Expr'):
+    distinct function objects are distinct attribute values even when module and qualified name coincide (closures of one
+    factory, lambdas of one scope, bound methods of two objects)."""
+    import sympy as sp
+    from vmon.workloads import exprs
+    D = ctx["pool"].D
+
+    def factory(power):
+        def phsp(s, m1, m2):
+            return D.PhaseSpaceFactor(s, m1, m2) ** power
+        return phsp
+    lambdas = [lambda s, m1, m2, k=k: D.PhaseSpaceFactorAbs(s, m1, m2) + k for k in (1, 2)]
+
+    class Holder:
+        def __init__(self, c):
+            self.c = c
+
+        def phsp(self, s, m1, m2):
+            return self.c * D.PhaseSpaceFactor(s, m1, m2)
+    h1, h2 = Holder(2), Holder(3)
+    groups = {"closures": [factory(1), factory(2)], "lambdas": lambdas, "bound_methods": [h1.phsp, h2.phsp]}
+    pool = ctx["pool"]
+    n_cls = 0
+    for key, cls in sorted(ctx["classes"].items()):
+        if not dataclasses.is_dataclass(cls) or cls.__name__.startswith("_"):
+            continue
+        if "phsp_factor" not in [f.name for f in exprs.non_sympy_fields(cls)]:
+            continue
+        n_cls += 1
+        args = [pool.integer("symbol", 1) if f.name in exprs.INT_FIELDS else pool.scalar("symbol", fi) for fi, f in enumerate(exprs.sympy_fields(cls))]
+        feats = {"cls": cls.__name__, "shape": "callable_attr", "nested": False, "non_sympy_fields": ["phsp_factor"]}
+        for gname, (f1, f2) in groups.items():
+            w1, w2, w1b = cls(*args, phsp_factor=f1), cls(*args, phsp_factor=f2), cls(*args, phsp_factor=f1)
+            rec.hit("law:hash_eq")
+            rec.case((cls.__name__, "callable_attr", "hash_eq", gname), True, cls=cls.__name__, law="hash_eq", shape="callable_attr")
+            rec.check(w1 == w1b and hash(w1) == hash(w1b), "hash_eq", f"{cls.__name__}: two instances with the same function object as phsp_factor ({gname}) are unequal", None, {**feats, "map": gname})
+            rec.check(w1 != w2 and hash(w1) != hash(w2), "hash_eq",
+                      f"{cls.__name__}: instances whose phsp_factor are two different function objects ({gname}: same module and qualified name, different behaviour) compare equal or hash alike",
+                      {"w1": sp.srepr(w1)[:200]}, {**feats, "map": gname})
+            d = w1 - w2   # Add collects equal terms: must not cancel (no simplify: SymPy's simplifiers may identify look-alike generators)
+            rec.check(d != 0, "hash_eq", f"{cls.__name__}: w1 - w2 collapses to 0 although the two unfold differently ({gname})", None, {**feats, "map": gname})
+            # substitution history: the same map applied to w1, then to w2 (SymPy caches subs by equality/hash)
+            scal = [s_ for s_ in exprs._scalar_symbols(w1) if not s_.is_integer]
+            m = {scal[0]: sp.Rational(13, 10)}
+            for tag, w in (("first", w1), ("second", w2)):
+                for api in ("subs", "xreplace"):
+                    rec.hit(f"law:{api}_commutes")
+                    rec.case((cls.__name__, "callable_attr", api, gname), True, cls=cls.__name__, law=f"{api}_commutes", shape="callable_attr")
+                    try:
+                        lhs = (w.subs(m) if api == "subs" else w.xreplace(m)).doit()
+                        rhs = w.doit().subs(m) if api == "subs" else w.doit().xreplace(m)
+                        ok = sp.simplify(lhs - rhs) == 0
+                    except Exception as exc:  # noqa: BLE001
+                        ok = False
+                        lhs = rhs = repr(exc)
+                    rec.check(bool(ok), f"{api}_commutes", f"{cls.__name__} with a callable phsp_factor ({gname}, {tag} of two look-alike instances): {api} then doit() != doit() then {api}",
+                              {"lhs": str(lhs)[:200], "rhs": str(rhs)[:200]}, {**feats, "map": gname})
+    rec.sample("callable_attrs", {"classes_with_phsp_factor": n_cls, "groups": list(groups)})
+
+
 def run_case(case, rec, ctx):
     import sympy as sp
     from vmon.workloads import exprs
@@ -222,6 +284,9 @@ def run_case(case, rec, ctx):
                 rec.check(False, "construction", f"{cls.__name__}: constructing a random argument combination raised {exc!r}", None, {"cls": cls.__name__, "shape": "random"})
                 continue
             check_instance(rec, ctx, inst, key, "random", rng)
+        return
+    if case["kind"] == "callable_attrs":
+        _callable_attrs(rec, ctx, rng)
         return
     if case["kind"] == "helpers":
         for k, sh, inst in exprs.helper_instances(ctx["pool"]):
